@@ -263,6 +263,8 @@ struct Workload {
     blocks: u64,
     /// standing invariants that failed at an acknowledged flush of the live store (props, what)
     inv: Vec<(Vec<&'static str>, String)>,
+    /// (trace length, free list) at the last acknowledged explicit flush
+    free_at_flush: Option<(usize, Vec<(u64, u64)>)>,
 }
 
 fn gen_value(rng: &mut Rng, sector_hint: u64) -> Vec<u8> {
@@ -332,6 +334,7 @@ fn run_workload(rng: &mut Rng, rec: &Arc<Recorder>, path: &str, blocks: u64, ste
     let keys: Vec<Vec<u8>> = (0..nkeys).map(|i| format!("key-{}-{}", i, rng.below(1000)).into_bytes()).collect();
     let mut hist: HashMap<Vec<u8>, Vec<St>> = keys.iter().map(|k| (k.clone(), vec![St::Absent])).collect();
     let mut inv_found: Vec<(Vec<&'static str>, String)> = vec![];
+    let mut free_at_flush: Option<(usize, Vec<(u64, u64)>)> = None;
     let cur = |hist: &HashMap<Vec<u8>, Vec<St>>| -> Vec<(Vec<u8>, usize)> { hist.iter().map(|(k, v)| (k.clone(), v.len() - 1)).collect() };
     for _ in 0..steps {
         let k = rng.pick(&keys).clone();
@@ -391,6 +394,7 @@ fn run_workload(rng: &mut Rng, rec: &Arc<Recorder>, path: &str, blocks: u64, ste
                 let r = store.flush();
                 if std::env::var("FV_DEBUG").is_ok() { eprintln!("flush -> {:?}", r); }
                 rec.push(Ev::FlushEnd { ok: r.is_ok(), snap });
+                if r.is_ok() { free_at_flush = Some((rec.log.lock().unwrap().len(), store.verif_free_runs())); }
                 if r.is_ok() && inv_found.len() < 3 {
                     let mut f = feox_verif_harness::inv::quiescent(&store);
                     f.extend(feox_verif_harness::inv::after_flush(&store, path));
@@ -454,7 +458,7 @@ fn run_workload(rng: &mut Rng, rec: &Arc<Recorder>, path: &str, blocks: u64, ste
     rec.drain_delay_ms.store(0, Ordering::SeqCst);
     rec.data_write_delay_ms.store(0, Ordering::SeqCst);
     rec.enabled.store(false, Ordering::SeqCst);
-    Some(Workload { keys, hist, blocks, inv: inv_found })
+    Some(Workload { keys, hist, blocks, inv: inv_found, free_at_flush })
 }
 
 #[derive(Clone, Debug)]
@@ -783,6 +787,23 @@ fn emit_txn_lines(out: &mut Out, trace: &[Ev], blocks: u64, resume: Option<&[(u6
             _ => {}
         }
     }
+}
+
+/// the allocation / publication / release events of the run as `space` lines for the bookkeeping
+/// model `Feox.C05.accept` (the model's allocator must hand out the same extents; a release must be
+/// a union of extents the model holds), ending with the free list the store reports
+fn emit_space_lines(out: &mut Out, trace: &[Ev], blocks: u64, final_free: &[(u64, u64)]) {
+    out.emit(format!("space new {}", blocks * BS as u64), "ok".into());
+    for e in trace {
+        match e {
+            Ev::Alloc(a, n) => { out.count("space alloc"); out.emit(format!("space a {} {}", a, n), "ok".into()); }
+            Ev::Publish(a, n, _, _) => out.emit(format!("space p {} {}", a, n), "ok".into()),
+            Ev::Release(a, n) => { out.count("space release"); out.emit(format!("space r {} {}", a, n), "ok".into()); }
+            _ => {}
+        }
+    }
+    let want = if final_free.is_empty() { "ok".to_string() } else { format!("ok {}", final_free.iter().map(|r| format!("{}+{}", r.0, r.1)).collect::<Vec<_>>().join(" ")) };
+    out.emit("space free".into(), want);
 }
 
 /// the per-key durability events of a recorded run, as `dur` lines for the Lean acceptor
@@ -1226,7 +1247,7 @@ fn fault_run(rng: &mut Rng, out: &mut Out, rec: &Arc<Recorder>, dir: &str, idx: 
         // keep the handle out of the trace from here: drop without recording
         drop(store);
         let trace = rec.log.lock().unwrap().clone();
-        (trace, Some(Workload { keys, hist, blocks, inv: vec![] }), flushes, mem_view, reads_ok)
+        (trace, Some(Workload { keys, hist, blocks, inv: vec![], free_at_flush: None }), flushes, mem_view, reads_ok)
     };
     let (t0, w0, _, _, _) = rehearse(FaultPlan::default(), rec);
     if w0.is_none() { return; }
@@ -1809,6 +1830,9 @@ fn main() {
                 }
                 emit_dur_lines(&mut out, &w, &trace);
                 emit_txn_lines(&mut out, &trace, blocks, None);
+                if let Some((upto, free)) = &w.free_at_flush {
+                    emit_space_lines(&mut out, &trace[..*upto], blocks, free);
+                }
                 explore_crashes(&mut rng, &mut out, &rec, &w, &trace, &format!("crash{}", i), budget, get("lean", 1) == 1);
             }
             let _ = std::fs::remove_file(&path);
